@@ -1,1 +1,116 @@
-fn main(){ println!("sim stub"); }
+// cv-sim: deterministic simulation driver for the cacache properties.
+//   cv-sim check <ID> --tier quick|thorough --workers DIR [--runs N] [--lanes N]
+//   cv-sim lane  <ID> --tier T --workers DIR --lane i --lanes N --runs N --out FILE   (internal)
+//   cv-sim replay FILE --workers DIR
+mod checks;
+mod disk;
+mod fmt;
+mod gen;
+mod gen2;
+mod hash;
+mod interp;
+mod prng;
+mod report;
+mod sysim;
+mod wk;
+
+use std::path::PathBuf;
+
+pub struct Args {
+    pub cmd: String,
+    pub id: String,
+    pub tier: String,
+    pub workers: PathBuf,
+    pub runs: Option<u64>,
+    pub lanes: u64,
+    pub lane: u64,
+    pub out: Option<PathBuf>,
+    pub seed: u64,
+    pub file: Option<PathBuf>,
+    pub verif: PathBuf,
+    pub keep: bool,
+    pub only_run: Option<u64>,
+}
+
+fn parse_args() -> Args {
+    let a: Vec<String> = std::env::args().collect();
+    let mut args = Args {
+        cmd: a.get(1).cloned().unwrap_or_default(),
+        id: String::new(),
+        tier: std::env::var("VERIF_TIER").unwrap_or_else(|_| "quick".into()),
+        workers: PathBuf::from("/verif/target/w-main"),
+        runs: None,
+        lanes: 16,
+        lane: 0,
+        out: None,
+        seed: std::env::var("VERIF_SEED").ok().and_then(|s| s.parse().ok()).unwrap_or(1),
+        file: None,
+        verif: PathBuf::from(std::env::var("VERIF_DIR").unwrap_or_else(|_| "/verif".into())),
+        keep: false,
+        only_run: None,
+    };
+    let mut i = 2;
+    while i < a.len() {
+        let nxt = |i: usize| a.get(i + 1).cloned().unwrap_or_default();
+        match a[i].as_str() {
+            "--tier" => {
+                args.tier = nxt(i);
+                i += 1;
+            }
+            "--workers" => {
+                args.workers = PathBuf::from(nxt(i));
+                i += 1;
+            }
+            "--runs" => {
+                args.runs = nxt(i).parse().ok();
+                i += 1;
+            }
+            "--lanes" => {
+                args.lanes = nxt(i).parse().unwrap_or(16);
+                i += 1;
+            }
+            "--lane" => {
+                args.lane = nxt(i).parse().unwrap_or(0);
+                i += 1;
+            }
+            "--out" => {
+                args.out = Some(PathBuf::from(nxt(i)));
+                i += 1;
+            }
+            "--seed" => {
+                args.seed = nxt(i).parse().unwrap_or(1);
+                i += 1;
+            }
+            "--run" => {
+                args.only_run = nxt(i).parse().ok();
+                i += 1;
+            }
+            "--keep" => args.keep = true,
+            s if !s.starts_with("--") => {
+                if args.cmd == "replay" {
+                    args.file = Some(PathBuf::from(s));
+                } else if args.id.is_empty() {
+                    args.id = s.to_string();
+                }
+            }
+            _ => {}
+        }
+        i += 1;
+    }
+    args
+}
+
+fn main() {
+    let args = parse_args();
+    let code = match args.cmd.as_str() {
+        "check" => report::orchestrate(&args),
+        "lane" => report::lane_main(&args),
+        "replay" => report::replay_main(&args),
+        "gen" => report::gen_main(&args),
+        _ => {
+            eprintln!("usage: cv-sim check|lane|replay ...");
+            2
+        }
+    };
+    std::process::exit(code);
+}
